@@ -9,6 +9,11 @@
 //! * `failure`      failure built at hop k and wrapped by hops k-1..0 is attributed to hop k with the
 //!                  original code and data; hold times; legacy hops; corruption in flight.
 //! * `fulfil`       fulfil attribution data reports the hops' hold times.
+//! * `*-grid`       enumerated: every prefix length for four fixed recipient shapes; every
+//!                  (path length, failing position) pair x 9 codes; every path length for fulfils.
+//!
+//! Every expectation is computed in `world.rs` / `refimpl.rs` from BOLT-4 (payload TLVs, Sphinx
+//! peel, "Returning Errors", route blinding, attributable failures), never by the code under test.
 
 mod fail;
 mod refimpl;
